@@ -4,7 +4,7 @@ import numpy as np
 import nets
 
 PID = "C06"
-THEOREMS = ["flood_basic", "flood_forest", "flood_upper", "flood_attained", "seeds_char", "fill_idempotent", "us_points_back", "extract_min_spec"]
+THEOREMS = ["flood_basic", "flood_forest", "flood_upper", "flood_attained", "seeds_char", "fill_idempotent", "us_points_back", "extract_min_spec", "gen_fill_depressions_eq"]
 RULE = ("all DEMs over {0,1,2,nodata} on shapes up to 2x3 / 3x2 (exhaustive), both connectivities, outlet modes 'edge', "
         "'min' and user cells; random integer DEMs (plateaus, nested depressions, nodata holes) to 8x8 (20x20 thorough) "
         "through dem.fill_depressions (int32, float32 and float64 arrays holding integers) and pyflwdir.from_dem; "
